@@ -89,7 +89,11 @@ def gen_energy(r, lo, hi, specials=()):
     c = r.random()
     if c < 0.10:
         return r.choice([lo, nextafter(lo, True), hi, nextafter(hi, False)])
-    if c < 0.22 and specials:
+    if c < 0.16:
+        return logu(r, lo, min(hi, lo * 10))      # lowest decade of the interval
+    if c < 0.22:
+        return logu(r, max(lo, hi / 10), hi)      # highest decade
+    if c < 0.34 and specials:
         s = r.choice(list(specials))
         s = r.choice([s, nextafter(s, True), nextafter(s, False), s * (1 + r.uniform(-1e-3, 1e-3))])
         return min(max(s, lo), hi)
@@ -171,6 +175,11 @@ def mk(model, r, E, needed, cut, variant=0, mat=0, elcomp=0, nstream=48, modelle
 
 
 def gen_kn(r):
+    if r.random() < 0.12:
+        # extreme low / high end (applicability (0, max)): oracle only, the differential is limited to
+        # [1e-6, 1e8] MeV where 1 - eps is not dominated by the rounding of libm vs the model's exp/log
+        E = r.choice([logu(r, 1e-12, 1e-6), logu(r, 1e8, 1e15), 1e-12, 1e15])
+        return mk("kn", r, E, 1, 1e-3, modelled=False, tag="kn-extreme-energy")
     E = gen_energy(r, 1e-6, 1e8, specials=[1e-4, 3e-3, 1e-2, 0.0511, EMASS, 1.0])
     return mk("kn", r, E, 1, 1e-3, modelled=True)
 
@@ -244,9 +253,11 @@ def gen_mubrems(r):
 
 
 def gen_rayleigh(r):
-    E = gen_energy(r, 1e-4, 1e8, specials=[1e-3, 1e-2, 0.1, 1.0])
+    E = gen_energy(r, 1e-6, 1e8, specials=[1e-3, 1e-2, 0.1, 1.0])
     mi, ec = pick_mat(r)
-    return mk("rayleigh", r, E, 0, 1e-3, mat=mi, elcomp=ec, nstream=200, modelled="rayleigh" in EXPRS)
+    # differential only for E >= 1e-4 MeV: below, cos = 1 - 2x/(b factor) amplifies the libm-vs-model rounding of
+    # fastpow(1-y, -1/n) - 1 by 1/(b factor) (factor ~ E^2); the oracle still runs
+    return mk("rayleigh", r, E, 0, 1e-3, mat=mi, elcomp=ec, nstream=200, modelled="rayleigh" in EXPRS and E >= 1e-4)
 
 
 def gen_sb(r):
@@ -271,7 +282,10 @@ def gen_combined(r):
 
 def gen_livermore(r):
     v = r.choice([0, 1, 2])
-    E = gen_energy(r, 1e-5, 1e3, specials=[3.6074e-3, 3.77e-4, 2.96e-4, 1e-3, 1e-2, 100.0, 5e-3])
+    # applicability (0, max): down to far below the smallest binding energy of K (4.22 eV, the lowest tabulated
+    # energy) and up to 1e8 MeV; specials = subshell binding energies / table ends / direction-sampling limits
+    E = gen_energy(r, 1e-8, 1e8, specials=[4.22e-6, 3.6074e-3, 3.77e-4, 2.96e-4, 1.8e-5, 3.4e-5, 1e-6, 1e-3, 1e-2,
+                                           100.0, 5e-3, 0.0035833, 0.104713])
     # electron / gamma cuts around the K (Z=19) transition energies (0.2-3.6 keV), different in both directions
     ce = r.choice([1e-5, 1e-4, 3e-4, 1e-3, 3e-3, 1e-2])
     cg = r.choice([1e-5, 1e-4, 3e-4, 1e-3, 3e-3, 1e-2])
@@ -283,7 +297,7 @@ def gen_livermore(r):
 
 
 def gen_coulomb(r):
-    E = gen_energy(r, 1e-3, nextafter(1e8, False), specials=[1.0, 50.0, 200.0, 1e3])
+    E = gen_energy(r, 1e-5, nextafter(1e8, False), specials=[1.0, 50.0, 200.0, 1e3])
     cut = r.choice([0.5, 1e-3, 10.0])
     return mk("coulomb", r, E, 0, cut, variant=r.randrange(6), elcomp=r.choice([0, 1]), nstream=64)
 
@@ -291,7 +305,7 @@ def gen_coulomb(r):
 GENERATORS = {
     "kn": (gen_kn, 400), "eplusgg": (gen_eplusgg, 300), "mb": (gen_mb, 400), "bh": (gen_bh, 400),
     "muhad_bb": (gen_muhad("bb", 0.2, 1e3), 200), "muhad_mubb": (gen_muhad("mubb", 0.2, 1e8), 200),
-    "muhad_bragg": (gen_muhad("bragg", 1e-3, 0.2), 150), "mubrems": (gen_mubrems, 200),
+    "muhad_bragg": (gen_muhad("bragg", 1e-5, 0.2), 150), "mubrems": (gen_mubrems, 200),
     "rayleigh": (gen_rayleigh, 300), "sb": (gen_sb, 200), "relbrem": (gen_relbrem, 200),
     "combined": (gen_combined, 200), "livermore": (gen_livermore, 300), "coulomb": (gen_coulomb, 200),
 }
@@ -502,12 +516,21 @@ def agree(c, a, b):
         # the direction of a particle left with (numerically) zero energy is the
         # normalised difference of two equal momenta: ill-conditioned, not compared
         stopped = c.model in ("mb", "muhad_bb", "muhad_mubb", "muhad_bragg") and abs(a["E"]) <= 1e-9 * c.E
-        if not stopped and not close(a["dir"], b["dir"], 1e-9, 1e-9 if c.model not in (
-                "mb", "muhad_bb", "muhad_mubb", "muhad_bragg") else 1e-6 if _at_tmax(c, a) else 1e-9):
+        patol = 1e-9
+        if c.model in ("mb", "muhad_bb", "muhad_mubb", "muhad_bragg") and _at_tmax(c, a):
+            patol = 1e-6
+        if c.model == "kn" and a["E"] > 0 and abs((1 - a["E"] / c.E) / (a["E"] / c.E * c.E / EMASS) - 2) <= 1e-9:
+            patol = 1e-6
+        if not stopped and not close(a["dir"], b["dir"], 1e-9, patol):
             return False
     # at the kinematic limit T_e = Tmax, cos(theta) = 1 - O(eps) and sin(theta) = sqrt(1 - cos^2) is
     # determined by rounding alone (cf. the NaN known finding): directions compared to 1e-6 there
     datol = 1e-9
+    if c.model == "kn" and a["action"] == 0 and a["E"] > 0:
+        # exact backscatter (eps ~ eps0, cos ~ -1): sin(theta) = sqrt(1 - cos^2) is determined by rounding alone
+        eps = a["E"] / c.E
+        if abs((1 - eps) / (eps * c.E / EMASS) - 2) <= 1e-9:
+            datol = 1e-6
     if c.model in ("mb", "muhad_bb", "muhad_mubb", "muhad_bragg") and a["secs"] and a["secs"][0][0] == 0:
         tmax = (c.E if c.variant == 1 else c.E / 2) if c.model == "mb" else mu_tmax(c.E)
         if abs(a["secs"][0][1] - tmax) <= 1e-10 * tmax:
@@ -589,7 +612,9 @@ def nan_signature(c, a):
             eps = F(a["E"]) / F(c.E)
             k = F(c.E) * F(1 / EMASS)
             cos = 1 - (1 - eps) / (eps * k)
-            if extreme and abs(float(1 + cos)) <= 1e-9:
+            # E_out carries a relative rounding error ~1e-16 that 1 - cos amplifies by 1/(1 - eps0) = (1+2k)/(2k)
+            tol = max(1e-9, 1e-15 * float((1 + 2 * k) / (2 * k)))
+            if extreme and abs(float(1 + cos)) <= tol:
                 return "kn-one-minus-costheta-exceeds-2-by-rounding-nan-direction"
         if m == "eplusgg" and c.E > 0 and not all(math.isfinite(x) for x in a["secs"][0][2]):
             etot = F(c.E) + 2 * F(EMASS)
